@@ -431,6 +431,65 @@ def work_count(case):
     return n, fails
 
 
+# ----------------------------------------------------------------------------- "lines not touched by a match are unchanged"
+# the same string VALUE spelled in several ways on different lines; the match (on the first line) carries one of them in a wildcard binding.
+# Restoring original spellings after a rewrite must not re-spell the literals of the other lines.
+def _untouched_cases():
+    spell = {"k": ["'k'", '"k"', '"""k"""', "r'k'", "\'\'\'k\'\'\'", "R\"k\"", "('k')", "'' 'k'"],
+             "a\nb": ["'a\\nb'", '"a\\nb"', '"""a\nb"""', "\'\'\'a\nb\'\'\'", "'a' '\\nb'"],
+             "q'q": ['"q\'q"', "'q\\'q'", '"""q\'q"""']}
+    out = []
+    for value, forms in spell.items():
+        for i, bound in enumerate(forms):
+            others = [f for j, f in enumerate(forms) if j != i]
+            src = f"f({bound})\n" + "".join(f"v{n} = {f}\n" for n, f in enumerate(others)) + "done = True\n"
+            out.append(("f({{x}})", "g({{x}})", src, 1))
+            out.append(("f({{x}})", "g({{x}}, {{x}})", src, 1))
+            src2 = "".join(f"v{n} = {f}\n" for n, f in enumerate(others)) + f"r = h(f({bound}))\n" + "done = True\n"
+            out.append(("f({{x}})", "g({{x}})", src2, None))
+        # files that do NOT contain the spelling the unparser would choose (the first form of each list), with one spelling in the majority
+        nonrepr = forms[1:]
+        for i, bound in enumerate(nonrepr):
+            for major in nonrepr:
+                rest = [f for f in nonrepr if f != major]
+                src3 = f"f({bound})\n" + f"m0 = {major}\nm1 = {major}\n" + "".join(f"v{n} = {f}\n" for n, f in enumerate(rest)) + "done = True\n"
+                out.append(("f({{x}})", "g({{x}})", src3, 1))
+    return out
+
+
+def work_untouched(case):
+    import importlib
+    import io
+    P.quiet()
+    pm = importlib.import_module("pyrefact.pattern_matching")
+    pat, rep, src, _ = case
+    r = P.guarded(lambda s: pm.sub(pat, rep, s), src, 60)
+    if r[0] != "ok":
+        return [{"cls": f"untouched:{r[0]}", "what": f"sub({pat!r}, {rep!r}, {src!r}) {r[0]}: {r[1]}"}]
+    out = r[1]
+    # lines (as the parser splits them) that contain no character of a match must reappear verbatim, in order
+    matches = list(pm.finditer(pat, src))
+    touched = set()
+    starts, off = [], 0
+    lines = io.StringIO(src, newline="").readlines()
+    for ln in lines:
+        starts.append(off)
+        off += len(ln)
+    for m in matches:
+        for k, st in enumerate(starts):
+            if st < m.end and m.start < st + len(lines[k]):
+                touched.add(k)
+    keep = [ln for k, ln in enumerate(lines) if k not in touched]
+    out_lines = io.StringIO(out, newline="").readlines()
+    pos = 0
+    for ln in keep:
+        try:
+            pos = out_lines.index(ln, pos) + 1
+        except ValueError:
+            return [{"cls": "untouched:line-changed", "what": f"sub({pat!r}, {rep!r}, {src!r}) -> {out!r}: the untouched line {ln!r} does not reappear verbatim"}]
+    return []
+
+
 def run(tier, seed):
     rnd = random.Random(seed)
     srcs = sources(tier, rnd)
@@ -475,6 +534,15 @@ def run(tier, seed):
     out.append({"name": "c14-count-bounds-replacements", "function": "pattern_matching.subn / sub", "contract": "for count > 0 the result contains at most `count` instantiated replacements, also where matches overlap each other",
                 "space": f"{len(cc)} cases: statement-sequence windows over runs of 1..9 statements (module / function body), chained and independent binary operations, nested calls x count in 0..4",
                 "bound": "runs of at most 9 matches", "evaluations": n, "distinct_nontrivial": len(cc), "exhaustive": True, "failures": P.cap(fl), "samples": [repr(cc[7])]})
+    uc = _untouched_cases()
+    r4 = P.pool_map(work_untouched, uc, chunksize=4)
+    fl = []
+    for c, fs in zip(uc, r4):
+        for f in fs:
+            fl.append({"id": f"{f['cls']}::{P.sha(c[2] + c[1])}", "cls": f["cls"], "input": f"sub({c[0]!r}, {c[1]!r}, {c[2]!r})", "observed": f["what"], "required": "every line that no match touches reappears byte for byte"})
+    out.append({"name": "c14-untouched-lines", "function": "pattern_matching.sub, processing._substitute_original_strings", "contract": "lines not touched by a match are unchanged - also literals of the same value in other spellings",
+                "space": f"{len(uc)} sources: one string value in 3-8 spellings on separate lines, the match binding one of them", "bound": "enumerated spellings", "evaluations": len(uc), "distinct_nontrivial": len(uc), "exhaustive": True,
+                "failures": P.cap(fl), "samples": [uc[0][2]]})
     return out
 
 
